@@ -459,7 +459,7 @@ def check_gym_host_callbacks(ck):
             args = None
             if m:
                 try:
-                    args = [ast.literal_eval(x.split("=", 1)[1].strip()) for x in m.group(1).split(",")]
+                    args = list(ast.literal_eval("(" + re.sub(r"\b[A-Za-z_]\w*\s*=", "", m.group(1)) + ",)"))
                 except Exception:  # noqa: BLE001
                     args = None
             rep, info = False, {"crosshair": msg[:400]}
